@@ -211,7 +211,12 @@ Definition in_domain (j : json) : bool :=
   end.
 
 (** ** Kinds: the class for the typed envelopes, the [is_*] predicates for the
-    unified class ([None]: none of them holds). *)
+    unified class ([None]: none of them holds).  [is_response] is "no method and
+    (an id or an error)": an error response whose id is null - JSON-RPC 2.0's
+    answer to a request whose id could not be determined, and what
+    create_batch_rejection_error() builds - is still an error response
+    (fixes/C02-null-id-error-is-a-response.patch; the pre-fix predicate is in
+    History/C02_prefix.v). *)
 Definition kind_of (e : msg) : option kind :=
   match m_cls e with
   | CRequest => Some KReq
@@ -222,9 +227,9 @@ Definition kind_of (e : msg) : option kind :=
       match m_method e, m_id e with
       | Some _, Some _ => Some KReq                         (* is_request *)
       | Some _, None => Some KNotif                         (* is_notification *)
-      | None, Some _ =>                                     (* is_response *)
-          if is_null (m_error e) then Some KRes else Some KErr   (* is_error_response *)
-      | None, None => None
+      | None, i =>
+          if negb (is_null (m_error e)) then Some KErr      (* is_error_response *)
+          else match i with Some _ => Some KRes | None => None end   (* is_response *)
       end
   end.
 
